@@ -10,12 +10,12 @@ open Uniflow.Tracer Uniflow.Node Uniflow.Flow Uniflow.FlowInv Uniflow.FlowG Unif
 theorem nlt_wq (lg : Log) (n : Nat) (i : Rid) (th : Thread) (a : A) (wq : List (Wid × List Pid)) (h : NLt lg n i th a) :
     NLt lg n i th { a with wq := wq } := ⟨h.inb, h.own, h.req, h.nz, h.wb⟩
 
-/-- the oldest packet owed on writer `w` is a `written` cell of a request of some reader `r`; with thread `r`'s
-invariant the answer fills it -/
+/-- the oldest packet owed on writer `w` is a `written` cell of a request of some reader `r`, or that request itself
+(written directly: the action returned its input packet); with thread `r`'s invariant the answer fills it -/
 theorem nlt_answer (lg : Log) (n : Nat) (a : A) (w : Wid) (ans : Ans) (k : Pid) (rest : List Pid)
     (hinv : Inv a) (hq : getL a.wq w = k :: rest) (hra : RA lg k ans)
     (hall : ∀ x ∈ a.reqs, ∃ th, NLt lg n x.r th a) :
-    ∃ x cs, x ∈ a.reqs ∧ x.st = .cells cs ∧ Cell.written k w ∈ cs ∧
+    ∃ x, x ∈ a.reqs ∧ k ∈ idsR x ∧
       ∀ inbox pc, NLt lg n x.r { inbox := inbox, pc := pc } a → (∀ y ∈ inbox, y.id ≠ k) →
         (∀ y ∈ a.reqs, y.r = x.r → y.p ≠ x.p → k ∉ remFor pc y.p) →
         ∃ ds : List (Pid × Ans), NLt lg n x.r { inbox := inbox, pc := pc } (aanswer a w ans).1 ∧
@@ -27,13 +27,27 @@ theorem nlt_answer (lg : Log) (n : Nat) (a : A) (w : Wid) (ans : Ans) (k : Pid) 
             (a.reqs.filter (fun y => y.r = j)).map (·.p)) ∧
           (aanswer a w ans).1.wq = setOrDel a.wq w rest := by
   obtain ⟨x, hx, hcase⟩ := hinv.owed w k (by rw [hq]; simp)
-  obtain ⟨th0, h0⟩ := hall x hx
-  rcases hcase with ⟨_, hst⟩ | ⟨cs, hst, hm⟩
-  · exfalso
-    rcases h0.req x hx rfl with hrq | ⟨v, e1, _, _⟩
-    · simp only [ReqA, hst] at hrq
-    · rw [hst] at e1; cases e1
-  · refine ⟨x, cs, hx, hst, hm, ?_⟩
+  have he : aanswer a w ans = afill { a with wq := setOrDel a.wq w rest } k ans := by
+    simp only [aanswer, hq]
+  rcases hcase with ⟨hxp, hst⟩ | ⟨cs, hst, hm⟩
+  · -- the request itself was written
+    refine ⟨x, hx, by simp [idsR, hxp], ?_⟩
+    intro inbox pc h hki hkr
+    have hxe : x = ⟨k, x.r, .direct w⟩ := by
+      cases x with
+      | mk xp xr xst => simp only at hst hxp; subst hst; subst hxp; rfl
+    have hX : (⟨k, x.r, .direct w⟩ : Req) ∈ a.reqs := by rw [← hxe]; exact hx
+    have hrem0 : remFor pc k = [] := by
+      rcases h.req x hx rfl with hrq | ⟨v, e1, _, _⟩
+      · simp only [ReqA, hst] at hrq; rw [← hxp]; exact hrq
+      · rw [hst] at e1; cases e1
+    have hN := nlt_wq lg n x.r _ a (setOrDel a.wq w rest) h
+    obtain ⟨ds, d1, d2, d3, d4, d5, d6, d7⟩ := nlt_self_fill lg lg n x.r inbox pc pc { a with wq := setOrDel a.wq w rest } k
+      (.direct w) ans hN hinv.nodup hX (Or.inr ⟨w, rfl⟩) (tr_refl lg k) hra (fun _ => rfl) hrem0 (fun _ _ e => e)
+      (fun _ _ _ => Or.inl rfl) h.wb hki (fun y hy hyr hne => hkr y hy hyr (by rw [hxp]; exact hne)) (fun _ _ => rfl)
+    rw [he]
+    exact ⟨ds, d1, d2, d3, d4, d5, d6, d7⟩
+  · refine ⟨x, hx, by simp only [idsR, hst, cellsOfSt, List.mem_cons]; right; exact written_mem_open cs k w hm, ?_⟩
     intro inbox pc h hki hkr
     have hxe : x = ⟨x.p, x.r, .cells cs⟩ := by
       cases x with
@@ -49,10 +63,8 @@ theorem nlt_answer (lg : Log) (n : Nat) (a : A) (w : Wid) (ans : Ans) (k : Pid) 
       · exact absurd hm (allLinked_no_written cs k w e)
     have hN := nlt_wq lg n x.r _ a (setOrDel a.wq w rest) h
     obtain ⟨ds, d1, d2, d3, d4, d5, d6, d7⟩ := nlt_fill lg lg n x.r inbox pc pc { a with wq := setOrDel a.wq w rest } k ans hN
-      (fun _ => rfl) (fun _ _ e => e) (fun _ _ => Or.inl rfl) h.wb hinv.nodup x.p cs hX (written_mem_open cs k w hm)
+      (fun _ => rfl) (fun _ _ e => e) (fun _ _ _ => Or.inl rfl) h.wb hinv.nodup x.p cs hX (written_mem_open cs k w hm)
       hrem0 (tr_refl lg k) hki hkr (fun _ _ => rfl) hra
-    have he : aanswer a w ans = afill { a with wq := setOrDel a.wq w rest } k ans := by
-      simp only [aanswer, hq]
     rw [he]
     exact ⟨ds, d1, d2, d3, d4, d5, d6, d7⟩
 
